@@ -1,0 +1,26 @@
+//go:build verif
+
+// Contracts for the deductive verifier in /verif (govc). This file contains no code: with the
+// build tag off it is not part of the package, with it on it adds nothing to the build.
+package types
+
+//@ import big "math/big"
+//@ import sdk "github.com/cosmos/cosmos-sdk/types"
+//@ import ethtypes "github.com/ethereum/go-ethereum/core/types"
+//@ import cmtbytes "github.com/cometbft/cometbft/libs/bytes"
+//@ import strconv "strconv"
+//@ import common "github.com/ethereum/go-ethereum/common"
+
+// events.go — the tx_receipt event is a pure rendering of the receipt object it is given (C13); it fails only when the
+// receipt cannot be marshalled, and never touches state.
+//@ func GetSdkEventForReceipt(receipt *ethtypes.Receipt, effectiveGasPrice *big.Int, vmErr error, cometTxHash *cmtbytes.HexBytes) (ev sdk.Event, err error)
+//@   requires receipt != nil && effectiveGasPrice != nil && receipt.BlockNumber != nil
+//@   requires forall i int :: (0 <= i && i < len(receipt.Logs)) ==> receipt.Logs[i] != nil
+//@   modifies nothing
+//@   ensures[C13.event_needs_marshalled_receipt] receipt.Type <= 2 ==> err == nil
+//@   ensures[C13.event_renders_receipt] err == nil ==> (ev.Type == "tx_receipt" && len(ev.Attributes) >= 7 && ev.Attributes[3].Key == "gasUsed" && ev.Attributes[3].Value == strconv.FormatUint(receipt.GasUsed, 10) && ev.Attributes[6].Key == "txIdx" && ev.Attributes[6].Value == strconv.FormatUint(receipt.TransactionIndex, 10))
+//@   ensures[C13.event_renders_log_index] (err == nil && len(receipt.Logs) > 0) ==> (len(ev.Attributes) >= 8 && ev.Attributes[7].Key == "logIdx" && ev.Attributes[7].Value == strconv.FormatUint(receipt.Logs[0].Index, 10))
+//@   ensures[C13.event_contract_address_key] err == nil ==> ev.Attributes[2].Key == "contractAddr"
+//@   ensures[C13.event_contract_address_empty] (err == nil && receipt.ContractAddress == zero(type(common.Address))) ==> ev.Attributes[2].Value == ""
+//@   ensures[C13.event_contract_address_hex] (err == nil && receipt.ContractAddress != zero(type(common.Address))) ==> (ev.Attributes[2].Value == receipt.ContractAddress.Hex() && ev.Attributes[2].Value != "")
+//@   panics[C13.event_never_panics,C20.event_never_panics] never
